@@ -6,7 +6,8 @@ import ast
 
 from ..rules import must_precede, must_follow
 from ..cfg import cfg_of, always_raises, handler_names, is_catch_all
-from ..astutil import dotted, get_arg, derived, norm, enclosing, names_in, defs_of, assignments
+from ..pathcond import inline
+from ..astutil import arg_for, dotted, get_arg, derived, norm, enclosing, names_in, defs_of, assignments
 from ..srcmodel import own_nodes, AnalysisError
 from .C17 import find_committer, find_appenders
 from .C20 import fold
@@ -108,6 +109,41 @@ def run(ctx):
     ctx.decide(ok, 'R-OWN', 'D1', ap or f, None, 'append-via-iterappend',
                'Array.append writes only through iterappend (one recovery path for both)',
                detail='append has a write path of its own')
+    if ap is not None:
+        append_is_one_chunk(ctx, ap, f)
+
+
+def append_is_one_chunk(ctx, ap, f):
+    """`append(x)` offers x to iterappend as ONE chunk (a one-element display), so that a failure leaves all of x or
+    nothing of x.  Handing it a repo generator that cuts x into pieces makes a failed append keep a prefix of x."""
+    calls = [n for n, cal in ctx.E.callees(ap) if cal is f and isinstance(n, ast.Call)]
+    if not calls or ap is None:
+        return
+    params = [p for p in ap.params if p != 'self']
+    for call in calls:
+        arg = arg_for(call, f, [p for p in f.params if p != 'self'][0])
+        if arg is None:
+            continue
+        arg = inline(ap, arg)
+        while isinstance(arg, ast.Call) and dotted(arg.func) in ('iter', 'list', 'tuple') and len(arg.args) == 1:
+            arg = arg.args[0]
+        construct = 'append-one-chunk'
+        inst = 'Array.append offers its argument to iterappend as a single chunk (all of it is appended, or nothing)'
+        if isinstance(arg, (ast.List, ast.Tuple, ast.Set)) and len(arg.elts) == 1 and not isinstance(arg.elts[0], ast.Starred):
+            ctx.ok('R-FLOW', 'D1', ap, call, construct, inst)
+            continue
+        splitter = None
+        if isinstance(arg, ast.Call):
+            for k, t in ctx.R.resolve_call(arg, ap):
+                if k == 'repo' and any(isinstance(x, (ast.Yield, ast.YieldFrom)) for x in own_nodes(t.node)):
+                    splitter = t
+        if isinstance(arg, (ast.GeneratorExp, ast.ListComp)) or splitter is not None or \
+                (isinstance(arg, ast.Name) and arg.id in params):
+            ctx.bad('R-FLOW', 'D1', ap, call, construct, inst,
+                    detail=f'the argument is handed over as `{norm(arg)[:60]}`, which yields it in several pieces: after a '
+                           f'failure part-way the array keeps a prefix of the appended data')
+        else:
+            ctx.assume('R-FLOW', 'D1', ap, call, construct, inst, detail=f'unrecognised iterable `{norm(arg)[:60]}`')
 
 
 def recover(ctx, f, cls, node, what, committer, appenders):
@@ -156,6 +192,18 @@ def recover(ctx, f, cls, node, what, committer, appenders):
         if not resizes:
             ctx.bad('R-RECOVER', 'D1', f, h, construct + '::resize', inst,
                     detail='handler does not cut the data file back to the committed size: a partial chunk remains')
+            ok_all = False
+            continue
+        # the cut is unconditional: every path through the handler to its raise passes a resize (a guard such as
+        # `if <rows completed> > 0:` skips it exactly when the first chunk failed part-way and its bytes are in the file)
+        cfg = cfg_of(f)
+        rnodes = {cfg.node_for(r.node) for r in resizes}
+        start = cfg.node_for(h.body[0])
+        ends = [cfg.node_for(x) for x in ast.walk(body) if isinstance(x, ast.Raise)]
+        if not all(cfg.all_paths_pass(start, e_, rnodes, skip_labels=('exc',)) for e_ in ends):
+            ctx.bad('R-RECOVER', 'D1', f, resizes[0].node, construct + '::resize-unconditional', inst,
+                    detail='a path through the handler reaches the re-raise without cutting the data file back (the cut is '
+                           'conditional): when the failing chunk was the first one, its partly written bytes stay in the file')
             ok_all = False
             continue
         for r in resizes:
